@@ -170,6 +170,29 @@ pub mod atomic {
                     sched::point(concat!(stringify!($name), ".fetch_min"));
                     self.inner.fetch_min(v, o)
                 }
+                pub fn fetch_and(&self, v: $prim, o: Ordering) -> $prim {
+                    self.reg();
+                    sched::point(concat!(stringify!($name), ".fetch_and"));
+                    self.inner.fetch_and(v, o)
+                }
+                pub fn fetch_or(&self, v: $prim, o: Ordering) -> $prim {
+                    self.reg();
+                    sched::point(concat!(stringify!($name), ".fetch_or"));
+                    self.inner.fetch_or(v, o)
+                }
+                pub fn fetch_xor(&self, v: $prim, o: Ordering) -> $prim {
+                    self.reg();
+                    sched::point(concat!(stringify!($name), ".fetch_xor"));
+                    self.inner.fetch_xor(v, o)
+                }
+                pub fn fetch_nand(&self, v: $prim, o: Ordering) -> $prim {
+                    self.reg();
+                    sched::point(concat!(stringify!($name), ".fetch_nand"));
+                    self.inner.fetch_nand(v, o)
+                }
+                pub fn as_ptr(&self) -> *mut $prim {
+                    self.inner.as_ptr()
+                }
                 pub fn compare_exchange(&self, c: $prim, n: $prim, s: Ordering, f: Ordering) -> Result<$prim, $prim> {
                     self.reg();
                     sched::point(concat!(stringify!($name), ".compare_exchange"));
@@ -219,4 +242,86 @@ pub mod atomic {
     wrap_atomic!(AtomicIsize, std::sync::atomic::AtomicIsize, isize);
     wrap_atomic!(AtomicI64, std::sync::atomic::AtomicI64, i64);
     wrap_atomic!(AtomicI32, std::sync::atomic::AtomicI32, i32);
+
+    /// `AtomicBool` with scheduling points (a flag-based lock or latch would otherwise be invisible to the explorer)
+    pub struct AtomicBool {
+        inner: std::sync::atomic::AtomicBool,
+        init: bool,
+    }
+    macro_rules! bool_rmw {
+        ($m:ident) => {
+            pub fn $m(&self, v: bool, o: Ordering) -> bool {
+                self.reg();
+                sched::point(concat!("AtomicBool.", stringify!($m)));
+                self.inner.$m(v, o)
+            }
+        };
+    }
+    impl AtomicBool {
+        pub const fn new(v: bool) -> Self {
+            Self { inner: std::sync::atomic::AtomicBool::new(v), init: v }
+        }
+        fn reg(&self) {
+            fn reset(p: usize, init: usize) {
+                unsafe { (*(p as *const std::sync::atomic::AtomicBool)).store(init != 0, Ordering::SeqCst) }
+            }
+            sched::register_reset2(&self.inner as *const std::sync::atomic::AtomicBool as usize, reset, self.init as usize);
+        }
+        pub fn load(&self, o: Ordering) -> bool {
+            self.reg();
+            sched::point("AtomicBool.load");
+            self.inner.load(o)
+        }
+        pub fn store(&self, v: bool, o: Ordering) {
+            self.reg();
+            sched::point("AtomicBool.store");
+            self.inner.store(v, o)
+        }
+        bool_rmw!(swap);
+        bool_rmw!(fetch_and);
+        bool_rmw!(fetch_or);
+        bool_rmw!(fetch_xor);
+        bool_rmw!(fetch_nand);
+        pub fn compare_exchange(&self, c: bool, n: bool, s: Ordering, f: Ordering) -> Result<bool, bool> {
+            self.reg();
+            sched::point("AtomicBool.compare_exchange");
+            self.inner.compare_exchange(c, n, s, f)
+        }
+        pub fn compare_exchange_weak(&self, c: bool, n: bool, s: Ordering, f: Ordering) -> Result<bool, bool> {
+            self.reg();
+            sched::point("AtomicBool.compare_exchange_weak");
+            self.inner.compare_exchange(c, n, s, f)
+        }
+        pub fn fetch_update<F: FnMut(bool) -> Option<bool>>(&self, s: Ordering, f: Ordering, mut g: F) -> Result<bool, bool> {
+            let mut cur = self.load(f);
+            loop {
+                match g(cur) {
+                    None => return Err(cur),
+                    Some(n) => match self.compare_exchange(cur, n, s, f) {
+                        Ok(p) => return Ok(p),
+                        Err(p) => cur = p,
+                    },
+                }
+            }
+        }
+        pub fn get_mut(&mut self) -> &mut bool {
+            self.inner.get_mut()
+        }
+        pub fn into_inner(self) -> bool {
+            self.inner.into_inner()
+        }
+        pub fn as_ptr(&self) -> *mut bool {
+            self.inner.as_ptr()
+        }
+    }
+    impl Default for AtomicBool {
+        fn default() -> Self {
+            Self::new(false)
+        }
+    }
+    impl std::fmt::Debug for AtomicBool {
+        fn fmt(&self, f: &mut std::fmt::Formatter<'_>) -> std::fmt::Result {
+            self.inner.fmt(f)
+        }
+    }
 }
